@@ -67,8 +67,9 @@ def nontrivial(evs):
 
 P = {
     "specdir": "selector",
-    "design": [{"module": "I_Canon", "cfg": "MC_I_Canon.cfg", "thorough_cfg": "MC_I_Canon_deep.cfg", "workers": 4}],
-    "gen": {"module": "Gen_Selector", "cfg": "Gen_Selector.cfg", "workers": 1, "max": 30, "thorough_max": None, "timeout": 300},
+    "design": [{"module": "I_Canon", "coverage": False, "cfg": "MC_I_Canon.cfg", "thorough_cfg": "MC_I_Canon_deep.cfg", "workers": 4,
+                "timeout": 900}],  # single-action spec (one initial state per tree): -coverage adds nothing and costs 10x,
+    "gen": {"module": "Gen_Selector", "cfg": "Gen_Selector.cfg", "workers": 1, "max": 30, "thorough_max": None, "timeout": 900},
     "driver": {"cmd": "selector"},
     "n_random": (25, 1000),
     "trace": {"module": "T_Selector", "cfg": "T_Selector.cfg", "timeout": 1200},
